@@ -64,6 +64,10 @@ def fixed_doc_cases(rng, tier):
             for w1 in (1, 2, 3, 4):
                 for w2 in (0, 1, 2, 4):
                     add(*mk(('stream',), dict(W=(w0, w1, w2), obj0=(w0 != 0))))     # w0 = 0 needs a section of type-1 entries only
+        # order of the /Index subsections
+        for io in ('asc', 'shuffle', 'reverse', 'self_first', 'singles'):
+            for selfent in (True, False):
+                add(*mk(('stream',), dict(index=True, selfent=selfent, index_order=io, obj0=(io != 'singles'))))
         # /Index, self entry, filters
         for index in (True, False):
             for selfent in (True, False):
